@@ -12,6 +12,7 @@ def genBytes (len seed : Nat) : Bytes :=
 def parseContent (s : String) : Option Bytes :=
   match s.splitOn ":" with
   | ["gen", l, sd] => do pure (genBytes (← l.toNat?) (← sd.toNat?))
+  | ["zero", l] => do pure (List.replicate (← l.toNat?) 0)
   | [h] => bytesOfHex h
   | _ => none
 
